@@ -104,8 +104,19 @@ Definition set_headers (st : rstate) (rid : nat) (h : hconstraint) : rstate :=
 Definition header_get (hdrs : list (str * str)) (name : str) : str :=
   match find (fun p => str_eqb (fst p) name) hdrs with Some p => snd p | None => [] end.
 
+(* http.Header.Get canonicalises the name it is asked for (first letter and letters after '-' upper case, the rest
+   lower case); the request's own keys are canonical already *)
+Definition up_c (c : N) : N := if N.leb 97 c && N.leb c 122 then c - 32 else c.
+Definition low_c (c : N) : N := if N.leb 65 c && N.leb c 90 then c + 32 else c.
+Fixpoint canon_go (up : bool) (s : str) : str :=
+  match s with
+  | [] => []
+  | c :: r => (if up then up_c c else low_c c) :: canon_go (N.eqb c 45) r
+  end.
+Definition canon_key (s : str) : str := canon_go true s.
+
 Definition constraint_ok (h : hconstraint) (hdrs : list (str * str)) : bool :=
-  forallb (fun c => let v := header_get hdrs (fst c) in
+  forallb (fun c => let v := header_get hdrs (canon_key (fst c)) in
                     negb (match v with [] => true | _ => false end) && search (snd c) v) h.
 
 Definition hdr_ok (st : rstate) (hdrs : list (str * str)) (rid : nat) : bool :=
